@@ -20,7 +20,16 @@ import sys
 import time
 
 VERIF = os.path.dirname(os.path.dirname(os.path.abspath(__file__)))
-REPO = os.environ.get("VERIF_REPO", "/repo")
+def _repo_path():
+    if os.environ.get("VERIF_REPO"):
+        return os.environ["VERIF_REPO"]
+    p = os.path.join(VERIF, ".repo_path")      # written by tools/scratch.sh in scratch copies only
+    if os.path.exists(p):
+        return open(p).read().strip()
+    return "/repo"
+
+
+REPO = _repo_path()
 COQ = os.path.join(VERIF, "coq")
 GO = os.path.join(VERIF, "go")
 WORK = os.path.join(VERIF, "work")
@@ -290,6 +299,41 @@ class Run:
             rc, log = sh(["coqchk", "-silent", "-o", "-Q", ".", "Opcua", "Opcua.Props.%s" % self.pid], cwd=COQ, timeout=timeout)
         self.coverage["coqchk"] = {"rc": rc, "tail": log[-1500:]}
         return rc == 0, log
+
+    def eval_cases(self, imports, ctype, lines, agree_body, shard=1500, timeout=900, name="Cases"):
+        """Correspondence inside Coq.  `lines` are Coq terms of type `ctype` (one per case, the inputs and the
+        observables the implementation produced); `agree_body` is the body of
+        `Definition agree (c : ctype) : bool := ...` that recomputes the observables with the model and compares.
+        Evaluated with vm_compute by coqc, in shards.  Returns (ok, mismatching case indices, log)."""
+        import concurrent.futures
+        shards = [lines[i:i + shard] for i in range(0, len(lines), shard)] or [[]]
+        files = []
+        for k, sh_lines in enumerate(shards):
+            src = "%s\nDefinition cases : list (%s) := [\n%s\n].\nDefinition agree (c : %s) : bool :=\n%s.\n" % (
+                imports, ctype, ";\n".join(sh_lines), ctype, agree_body)
+            src += ("Definition mism := Eval vm_compute in map fst (filter (fun ic => negb (agree (snd ic))) "
+                    "(combine (seq 0 (length cases)) cases)).\nPrint mism.\n")
+            f = os.path.join(self.work, "%s%d.v" % (name, k))
+            with open(f, "w") as fh:
+                fh.write(src)
+            files.append(f)
+        ok, mism, logs = True, [], []
+        with concurrent.futures.ThreadPoolExecutor(max_workers=8) as ex:
+            results = list(ex.map(lambda f: coq_eval(f, timeout), files))
+        for k, (okc, out) in enumerate(results):
+            m = re.search(r"mism\s*=\s*(\[[^\]]*\])", out.replace("\n", " "))
+            if not okc or not m:
+                ok = False
+                logs.append(out[-1500:])
+                continue
+            mism += [k * shard + int(x) for x in re.findall(r"\d+", m.group(1))]
+        return ok, mism, "\n".join(logs)
+
+    def conclude(self, proof_ok, corr_ok, new_violations, detail, what=None):
+        """Standard verdict: if a proof obligation or the correspondence broke and the oracle search produced no
+        new concrete violation, report the broken tie with no-failing-input-found."""
+        if (not proof_ok or not corr_ok) and new_violations == 0:
+            self.broken_tie(what or ("%s: theorems or the model/implementation correspondence no longer check" % self.pid), detail)
 
     # -- verdicts
     def is_known(self, key):
